@@ -149,6 +149,11 @@ class _Compose:
                 if f is not None:
                     self.run(list(body) + rest, dict(env), f)
             return
+        if isinstance(s, ast.Assign) and len(s.targets) == 1 and isinstance(s.value, ast.IfExp):
+            # x = a if c else b  ==  if c: x = a else: x = b
+            a1 = ast.copy_location(ast.Assign(targets=s.targets, value=s.value.body), s)
+            a2 = ast.copy_location(ast.Assign(targets=s.targets, value=s.value.orelse), s)
+            return self.run([ast.copy_location(ast.If(test=s.value.test, body=[a1], orelse=[a2]), s)] + rest, env, facts)
         if isinstance(s, ast.Assign) and len(s.targets) == 1 and isinstance(s.targets[0], ast.Name):
             v = self.val(s.value, env)
             if v is None and (s.targets[0].id == self.argsp or any(isinstance(x, ast.Name) and x.id in env for x in ast.walk(s.value))):
